@@ -265,7 +265,9 @@ class PollExecutor(CanCustomizeBind, Executor):
 
         try:
             now = monotonic()
-            return self._poll_fn(descriptors)
+            # The poll function gets a list of its own: it may consume or reorder it,
+            # and the futures it was shown must still be failed if it raises.
+            return self._poll_fn(list(descriptors))
         except Exception as e:
             self._log.debug("Poll function failed", exc_info=True)
             metrics.POLL_ERROR.labels(executor=self._name).inc()
